@@ -879,6 +879,20 @@ def rule_d(ctx):
     ctx.check(bool(stores) and all(stores), 'd', 'terminate_records_error', tm, tm.where(), 'self.error = Some(reason)', 'terminate() no longer records the error woken tasks will observe (self.error is not set to Some(reason))')
 
 
+def _cond_of(desc, raw):
+    """canonical condition that holds when the bool descriptor `desc` evaluates to `raw` (see _edge_conds)"""
+    inner, neg = peel_not(desc)
+    truth = raw != neg
+    rel = relation_on(desc, raw)
+    if rel is not None:
+        return ('rel', rel)
+    if inner[0] == 'call' and inner[1] in ('Option::is_some', 'Option::is_none') and inner[3]:
+        return ('some', inner[3][0], truth == (inner[1] == 'Option::is_some'))
+    if inner[0] == 'call' and inner[1] in ('Result::is_err', 'Result::is_ok') and inner[3]:
+        return ('err', inner[3][0], truth == (inner[1] == 'Result::is_err'))
+    return ('bool', inner, truth)
+
+
 def _edge_conds(br):
     """canonical condition holding on each edge of a branch: [(target, cond)] with cond one of
     ('some', X, bool) / ('err', X, bool)  Option::is_some|is_none / Result::is_err|is_ok of X,
@@ -891,18 +905,88 @@ def _edge_conds(br):
         if inner[0] == 'discr':
             out.append((t, ('discr', inner[1], v)))
             continue
-        raw = (v is None) or v != 0
-        truth = raw != neg
-        rel = relation_on(br.desc, raw)
-        if rel is not None:
-            out.append((t, ('rel', rel)))
-        elif inner[0] == 'call' and inner[1] in ('Option::is_some', 'Option::is_none') and inner[3]:
-            out.append((t, ('some', inner[3][0], truth == (inner[1] == 'Option::is_some'))))
-        elif inner[0] == 'call' and inner[1] in ('Result::is_err', 'Result::is_ok') and inner[3]:
-            out.append((t, ('err', inner[3][0], truth == (inner[1] == 'Result::is_err'))))
-        else:
-            out.append((t, ('bool', inner, truth)))
+        out.append((t, _cond_of(br.desc, (v is None) or v != 0)))
     return out
+
+
+def _controlling_edge(F, b, bb):
+    """(Branch, cond) of the one branch edge through which block `bb` is entered: bb and the straight-line blocks in front of it
+    have a single live predecessor each, up to a SwitchInt with exactly one edge into the chain; None otherwise"""
+    live = b.live_blocks()
+    brs = {br.bb: br for br in branches(F, b)}
+    cur, seen = bb, set()
+    while cur not in seen:
+        seen.add(cur)
+        preds = [p for p in b.pred[cur] if p in live and not b.blocks[p]['c']]
+        if len(preds) != 1:
+            return None
+        p = preds[0]
+        if b.blocks[p]['t'][0] == 'switch':
+            br = brs.get(p)
+            hits = [c for t, c in _edge_conds(br) if t == cur] if br is not None else []
+            return (br, hits[0]) if len(hits) == 1 else None
+        if len([s_ for s_ in b.succ[p] if s_ in live and not b.blocks[s_]['c']]) != 1:
+            return None
+        cur = p
+    return None
+
+
+def _bool_causes(F, b, op, bb, idx, want, depth=0):
+    """a bool local assigned on several paths is the VALUE of a short-circuit expression (`let live = a && !(b && c); if live {..}`
+    is the same test as `if a && !(b && c) {..}`): the conditions [(Branch, cond)] under which the bool operand `op` read at
+    statement idx of bb equals `want`, read off its reaching definitions: a constant equal to `want` holds under the condition
+    of the branch edge that leads to the assignment, a copy / negation is followed to its source, any other definition (call
+    result, comparison, field read) is itself the condition.  None when some definition has another shape (the caller then keeps
+    the opaque condition)."""
+    if depth > 8 or op[0] not in ('m', 'c') or op[1][1]:
+        return None
+    d = describer(F, b)
+    out = []
+    for df in d.reaching_defs(op[1][0], bb, idx):
+        if df[0] == 'call':
+            desc = d.call_desc(df[2], 0)
+            if peel_not(desc)[0][0] == 'phi':
+                return None
+            out.append((None, _cond_of(desc, want)))
+            continue
+        if df[0] != 'stmt':
+            return None
+        _, dbb, didx, rv = df
+        if rv[0] == 'use' and rv[1][0] == 'k':
+            k = rv[1]
+            if k[1] != 'int' or k[3] != 'bool':
+                return None
+            if (int(k[2]) != 0) == want:
+                ce = _controlling_edge(F, b, dbb)
+                if ce is None:
+                    return None
+                out.extend(_expand_bool(F, b, ce[0], ce[1], depth + 1))
+            continue
+        if rv[0] == 'use' and rv[1][0] in ('m', 'c') and not rv[1][1][1]:
+            sub = _bool_causes(F, b, rv[1], dbb, didx, want, depth + 1)
+        elif rv[0] == 'un' and rv[1] == 'Not' and rv[2][0] in ('m', 'c') and not rv[2][1][1]:
+            sub = _bool_causes(F, b, rv[2], dbb, didx, not want, depth + 1)
+        else:
+            desc = d.rvalue(rv, dbb, didx, 0)
+            if peel_not(desc)[0][0] == 'phi':
+                return None
+            sub = [(None, _cond_of(desc, want))]
+        if sub is None:
+            return None
+        out.extend(sub)
+    return out
+
+
+def _expand_bool(F, b, br, cond, depth=0):
+    """[(Branch, cond)]: the edge condition itself, or, when the branch tests a bool local holding a short-circuit value, the
+    conditions under which that value sends control along this edge (_bool_causes)"""
+    if cond[0] == 'bool' and cond[1][0] == 'phi' and depth < 8:
+        t = b.blocks[br.bb]['t']
+        inner, neg = peel_not(br.desc)
+        sub = _bool_causes(F, b, t[1], br.bb, term_idx(b, br.bb), cond[2] != neg, depth + 1)
+        if sub is not None:
+            return [(x if x is not None else br, c) for x, c in sub]
+    return [(br, cond)]
 
 
 def _skipping(F, b, site_bb):
@@ -913,7 +997,7 @@ def _skipping(F, b, site_bb):
             continue
         for t, cond in _edge_conds(br):
             if site_bb not in b.reachable_from(t, avoid=[br.bb]):
-                res.append((br, cond))
+                res.extend(_expand_bool(F, b, br, cond))
     return res
 
 
